@@ -52,6 +52,9 @@ type c13Plan struct {
 	Craft    int // 0 genuine trie; 1 a leaf whose value is the hash of a forged continuation (leaf value used as a link); 2 the committed root is a malformed node
 	Source   int // header source: 0 harness oracle, 1 real ValidationOracle over an honest RPC, 2 over an RPC that answers with another header
 	Muts     []c13Mut
+	// history on the same (long-lived) validator before the judged call:
+	Prelude   bool // first validate the unmutated offer of this world
+	FailFirst bool // then validate the judged offer once while the header lookup fails
 }
 
 var c13MutKinds = []string{"path-short", "path-long", "path-nibble", "hash", "block", "block", "order", "drop", "drop", "dup", "surplus", "byte", "other-trie",
@@ -108,6 +111,8 @@ func genC13(t *rapid.T) c13Plan {
 			V:    rapid.Uint64().Draw(t, "mv"),
 		})
 	}
+	p.Prelude = rapid.IntRange(0, 2).Draw(t, "prelude") == 0
+	p.FailFirst = rapid.IntRange(0, 2).Draw(t, "failFirst") == 0
 	return p
 }
 
@@ -657,7 +662,27 @@ func runC13(p c13Plan, c *stats.Case) error {
 		oracle = validation.NewOracle(srv.client())
 	}
 
-	validator := state.NewStateValidator(oracle)
+	fo := &flakyOracle{inner: oracle}
+	validator := state.NewStateValidator(fo)
+	if p.Prelude {
+		w0 := buildC13(p) // the same world without mutations
+		hk, hc := w0.key.Encode(), w0.offer.Encode(w0.key.Kind)
+		_, _ = call(func() error { return validator.ValidateContent(hk, hc) })
+		c.Class("history:prelude")
+	}
+	if p.FailFirst {
+		fo.failNext = true
+		ferr, _ := call(func() error {
+			return validator.ValidateContent(append([]byte{}, keyBytes...), append([]byte{}, content...))
+		})
+		if ferr != nil {
+			c.Class("history:failed-lookup-first")
+		}
+		fo.failNext = false
+	}
+	if p.Prelude && p.FailFirst && len(p.Muts) > 0 {
+		c.NT("history:prelude+failed-lookup-then-judged")
+	}
 	verr, pan := call(func() error {
 		return validator.ValidateContent(append([]byte{}, keyBytes...), append([]byte{}, content...))
 	})
